@@ -323,6 +323,72 @@ func scenarios(o *common.Opts) []*callsim.Scenario {
 			// tags 1..qmax+2) are recognised by their tag and answered after `hold` ms
 			Servers: []callsim.ServerSpec{{Kind: "normal", HoldFromTag: 1, HoldToTag: qmax + 2, HoldMs: hold}}, Calls: calls, GapMs: 130, CapMs: 9000})
 	}
+	// boundary values of the deadline dimension: effective timeout 0, 1 ms, negative; a context that has
+	// already expired when the call is made; a context deadline later than the configured timeout (the context
+	// wins although it is later); each for the source that can carry it, on the direct path and on one filter
+	// path, against a peer that never answers and one that answers far too late. A timeout of 0 (or below) means
+	// context.WithTimeout(ctx, 0): the call has to come back at once with a timeout, not wait for ever.
+	{
+		type bval struct {
+			name     string
+			kind     string
+			tout     int // per-call / context timeout
+			proxy    int // configured timeout
+			proxySet bool
+		}
+		bvals := []bval{
+			{"cfg0", "proxy", 0, 0, true}, {"percall0", "percall", 0, 300, false},
+			{"cfg1", "proxy", 0, 1, false}, {"percall1", "percall", 1, 300, false},
+			{"cfgneg", "proxy", 0, -5, true}, {"percallneg", "percall", -5, 300, false},
+			{"ctxexpired0", "ctx", 0, 300, false}, {"ctxexpiredneg", "ctx", -50, 300, false},
+			{"ctxlater", "ctx", 600, 300, false},
+		}
+		for bi, bv := range bvals {
+			for pi2, path := range []string{"", callsim.FilterPaths[1+bi%3]} {
+				for _, peer := range []string{"silent", "late"} {
+					if !o.Thorough() && peer == "late" && (bi+pi2)%2 == 1 {
+						continue // quick tier: the late peer for every value on alternating paths
+					}
+					cl := callsim.ClientConf{WriteTimeoutMs: -1, DialTimeoutMs: 400, ProxyTimeoutMs: bv.proxy, ProxyTimeoutSet: bv.proxySet}
+					eff := bv.proxy
+					if bv.kind != "proxy" {
+						eff = bv.tout
+					}
+					if eff < 0 {
+						eff = 0
+					}
+					pname := path
+					if pname == "" {
+						pname = "direct"
+					}
+					sc := &callsim.Scenario{Name: fmt.Sprintf("edge-%s-%s-%s", bv.name, pname, peer), Class: "edge-" + peer, Client: cl, Filter: path,
+						Calls: []callsim.CallSpec{{Wave: 0, Timeout: bv.kind, TimeoutMs: bv.tout}}, Record: true}
+					if peer == "silent" {
+						sc.Servers = []callsim.ServerSpec{{Kind: "normal", Rules: []callsim.Rule{{From: 0, To: 63, Mode: "silent"}}}}
+						sc.CapMs = 4000
+					} else {
+						late := eff + 400 + slackMs + 400
+						sc.Servers = []callsim.ServerSpec{{Kind: "normal", Rules: []callsim.Rule{{From: 0, To: 0, Mode: "delay", DelayMs: late}}}}
+						sc.Calls = append(sc.Calls, callsim.CallSpec{Wave: 1, Timeout: "ctx", TimeoutMs: 1500, MustOK: true})
+						sc.GapMs = late - eff + 150
+						sc.CapMs = 8000
+					}
+					add(sc)
+				}
+			}
+		}
+		// very large timeouts (MaxInt32 ms) must not overflow into "already expired": a slow answer is awaited
+		for hi, kind := range []string{"proxy", "percall"} {
+			cl := callsim.ClientConf{WriteTimeoutMs: -1, DialTimeoutMs: 400, ProxyTimeoutMs: 300}
+			cs := callsim.CallSpec{Wave: 0, Timeout: kind, TimeoutMs: 1<<31 - 1, MustOK: true}
+			if kind == "proxy" {
+				cl.ProxyTimeoutMs = 1<<31 - 1
+			}
+			add(&callsim.Scenario{Name: "edge-huge-" + kind, Class: "edge-huge", Client: cl, Filter: callsim.FilterPaths[hi*2],
+				Servers: []callsim.ServerSpec{{Kind: "normal", Rules: []callsim.Rule{{From: 0, To: 0, Mode: "delay", DelayMs: 250}}}},
+				Calls:   []callsim.CallSpec{cs}, Record: true})
+		}
+	}
 	// callers queue up behind the dial lock of an endpoint that does not answer the dial
 	{
 		cl := callsim.ClientConf{WriteTimeoutMs: -1, DialTimeoutMs: 500, ProxyTimeoutMs: 200}
@@ -500,7 +566,15 @@ func main() {
 		okN, errN, hangN := 0, 0, 0
 		for ci, c := range r.Calls {
 			spec := sc.Calls[c.Spec]
-			eff := callsim.EffectiveTimeoutMs(sc, spec)
+			// a timeout <= 0 and a context that has already expired give a deadline that is not after the
+			// start of the call: the Nat-valued model clock represents it by "expires at once" (0)
+			clamp := func(x int) int {
+				if x < 0 {
+					return 0
+				}
+				return x
+			}
+			eff := clamp(callsim.EffectiveTimeoutMs(sc, spec))
 			elapsed := (c.EndUs - c.StartUs) / 1000
 			if !c.Returned {
 				hangN++
@@ -529,9 +603,12 @@ func main() {
 				viol("C09:unexpected-error:"+sc.Class, fmt.Sprintf("caller %d failed (%s) although the peer answered it well before its deadline", c.I, c.ErrText), c)
 			}
 			// ---- deadline stream ----
-			px := sc.Client.ProxyTimeoutMs
+			px := 3000
+			if sc.Client.ProxyTimeoutMs > 0 || sc.Client.ProxyTimeoutSet {
+				px = clamp(sc.Client.ProxyTimeoutMs)
+			}
 			pathName := map[string]string{"": "direct", "none": "direct", "single": "single", "middleware": "middleware", "prepost": "prepost"}[sc.Filter]
-			ask(fmt.Sprintf("deadline %d %s %s 0 %s", px, optNum(spec.Timeout == "ctx", spec.TimeoutMs), optNum(spec.Timeout == "percall", spec.TimeoutMs), pathName), func(ans string) {
+			ask(fmt.Sprintf("deadline %d %s %s 0 %s", px, optNum(spec.Timeout == "ctx", clamp(spec.TimeoutMs)), optNum(spec.Timeout == "percall", clamp(spec.TimeoutMs)), pathName), func(ans string) {
 				if ans != fmt.Sprint(eff) {
 					res.Diverge(common.Case{Stream: "deadline", Op: op, Model: ans, Impl: fmt.Sprint(eff), Note: "effective deadline of the model differs from the one the property names"})
 				}
@@ -632,7 +709,7 @@ func main() {
 		lines[i].check(a)
 	}
 	res.Rule = "real client in child processes against fake servers: silent / late / slow / close after request / close on accept / garbage frame / garbage body / refuse / black hole / never reading, " +
-		"x timeout source (configured, per-call, context) x 1-8 concurrent callers; dispatch path (no filter, single client filter, middleware chain, pre+post filters) x timeout source x {silent, far too late} in full;  wall clock vs effective deadline + DialTimeout + 700 ms; counters through the verif export after every wave; " +
+		"x timeout source (configured, per-call, context) x 1-8 concurrent callers; dispatch path (no filter, single client filter, middleware chain, pre+post filters) x timeout source x {silent, far too late} in full; boundary deadlines (timeout 0 / 1 ms / negative / MaxInt32 ms, expired context, context later than the configured timeout) x source x path x {silent, late};  wall clock vs effective deadline + DialTimeout + 700 ms; counters through the verif export after every wave; " +
 		"server resets / garbles the shared connection under 8 concurrent callers (storm) and the forced interleaving 'close of an already replaced connection' (verif yield points), each followed by plain calls; 2-3 ServantProxy objects sharing one adapter with overlapping calls (per-proxy queueLen, burst of ObjQueueMax calls per proxy afterwards); a further call after a late reply; histories with <= 2 concurrent callers replayed through the LTS; non-trivial = every scenario"
 	if err := res.Write(o.Out); err != nil {
 		panic(err)
